@@ -2,7 +2,7 @@ import TaskModel.Sched.SeqLemmas
 import TaskModel.Sched.LStep
 /-! Frame facts about `stepLocal`: what a local step never changes, which phases it can
 leave and how. Used by the tree invariant (`TreeLemmas.lean`) and by `Props/C02`, `Props/C03`. -/
-namespace TaskModel.Sched
+namespace TaskModel.Sched.S2
 
 /-- the fields no local step changes -/
 def Frame (x y : Act) : Prop :=
@@ -108,4 +108,4 @@ theorem stepLocal_frame (F : Flags) (o : Obs) (x : Act) (ev : Ev) (y : Act) (eff
     | exact Frame.trans (y := { x with holds := true }) ⟨rfl, rfl, rfl, rfl, rfl⟩ (afterCmd_frame _ _ _)
     | exact Frame.trans (y := { x with holds := true }) ⟨rfl, rfl, rfl, rfl, rfl⟩ (afterDefer_frame _)
 
-end TaskModel.Sched
+end TaskModel.Sched.S2
